@@ -15,7 +15,11 @@ MANIFEST = {
                   "fix: commits, returns a value or an error (never Panic, never OutOfFuel) after at most |bs|/4 loop "
                   "iterations and at most that many appends. The model is tied to /repo on every run: outcome class and "
                   "value of every walker on exhaustive short samples, hostile length fields and mutated well-formed samples "
-                  "must equal the model's. Explored only (no theorem): the remaining entry points of the statement.",
+                  "must equal the model's. Stage 2 theorems: the EBSP bit reader (Read, ReadExpGolomb) never exhausts its loop fuel and "
+                  "consumes the bits it returns, sticky error is O(1); the guarded count-driven loop shape used by the repairs is "
+                  "total for every count (unguarded shape refuted); sei.DecodePicTimingHevcSEI is total for every payload and "
+                  "parameter set (also tied to /repo by correspondence of class and decoded values). Explored only (no "
+                  "theorem): SPS/PPS/slice parsers, other SEI decoders, ADTS/ASC, config records, Annex B scanners.",
     "level_note": "Trusted: Coq kernel, extraction, OCaml/Go glue, worker classification (wall-clock budget, runtime/metrics "
                   "allocation counter, watchdog + ulimit -v). Go int is taken to be 64 bit (no wrap of len+2^32). Real time and "
                   "heap are observed, not proved.",
@@ -42,7 +46,8 @@ def limited(exe, args):
 def run(ctx):
     ctx.cov["trusted_base"] = common.TRUSTED_BASE_COMMON + [
         "model: coq/c16/C16Model.v is a hand transcription of avc/nalus.go, avc/avc.go (walkers), "
-        "avc/annexb.go ConvertSampleToByteStream, hevc/hevc.go (walkers) after the fix: commits",
+        "avc/annexb.go ConvertSampleToByteStream, hevc/hevc.go (walkers), sei/sei1_hevc.go DecodePicTimingHevcSEI after the "
+        "fix: commits; bit reader model imported from coq/c13/C13Model.v",
         "outcome classification by the harness parent: ok|err from the call, panic by recover, hang by wall clock "
         "(2 s, confirmed with 6 s), overalloc by allocation counter > 512*len+1MiB or runtime out-of-memory abort",
     ]
@@ -68,7 +73,7 @@ def run(ctx):
     ctx.cov["distinct_nontrivial"] += distinct
     ctx.notes["correspondence"] = {
         "cases": len(lines), "mismatches": len(mism), "distinct_cases": distinct, "classes": classes,
-        "distribution": "15 walkers on: fixed witnesses; every string over {00,01,04,fc,ff} up to length 3 (5 thorough); "
+        "distribution": "sei.DecodePicTimingHevcSEI on fixed + random/field-soup payloads x random external flags and widths; 15 walkers on: fixed witnesses; every string over {00,01,04,fc,ff} up to length 3 (5 thorough); "
                         "12 hostile 32-bit length fields x every tail over {00,05,ff} of length 1..4 (6 thorough); "
                         "%d generated samples (0-7 NAL units, typed header bytes) mutated: 25%% well-formed, 15%% truncated, "
                         "30%% hostile length field (0,1,rem-1,rem,rem+1,2^31,2^32-k, wrap-to-position), 10%% trailing bytes, "
